@@ -205,3 +205,16 @@ impl Drop for InstanceTrace {
 pub(in crate::sql) fn trace_recording() -> bool {
     SPLIT_TRACE.with(|t| t.borrow().is_some())
 }
+
+/// The column ids declared as the wildcard of a relation instance, sorted.
+pub(in crate::sql) fn wildcard_cids(ctx: &AnchorContext) -> Vec<usize> {
+    use super::pq::context::ColumnDecl;
+    let mut ids: Vec<_> = ctx
+        .column_decls
+        .iter()
+        .filter(|(_, d)| matches!(d, ColumnDecl::RelationColumn(_, _, rq::RelationColumn::Wildcard)))
+        .map(|(c, _)| c.get())
+        .collect();
+    ids.sort();
+    ids
+}
